@@ -219,7 +219,7 @@ def h_tables(ctx):
         ctx.check_eq('tables/num_sections/extended', elf.num_sections(), null_fields['sh_size'])
     else:
         ctx.check_eq('tables/num_sections', elf.num_sections(), nsec_total)
-        got = list(elf.iter_sections())
+        got = ctx.drain(elf.iter_sections())
         ctx.check_eq('tables/iter_sections/count', len(got), nsec_total)
         for i, f in enumerate(secs):
             s = elf.get_section(i + 1)
@@ -239,7 +239,7 @@ def h_tables(ctx):
         ctx.check_eq('tables/num_segments/extended', elf.num_segments(), null_fields['sh_info'])
     else:
         ctx.check_eq('tables/num_segments', elf.num_segments(), cfg['nseg'])
-        gsegs = list(elf.iter_segments())
+        gsegs = ctx.drain(elf.iter_segments())
         ctx.check_eq('tables/iter_segments/count', len(gsegs), cfg['nseg'])
         for i, f in enumerate(segs):
             s = elf.get_segment(i)
@@ -313,7 +313,7 @@ def h_kinds(ctx):
     ctx.outcome('ok')
     ctx.check_eq('kind/%s/%s' % (t if t == 'other' else hex(t), machine), type(sec).__name__, want)
     ctx.check_eq('kind/name', sec.name, name)
-    ctx.check_eq('kind/via-iter', type(list(elf.iter_sections())[3]).__name__, want)
+    ctx.check_eq('kind/via-iter', type(ctx.drain(elf.iter_sections())[3]).__name__, want)
 
 
 def h_seg_kinds(ctx):
@@ -354,7 +354,7 @@ def h_lookup(ctx):
     elf = EF.ELFFile(ctx.stream(data))
     if cfg.get('warm'):
         elf.has_section('zzz')
-    secs = list(elf.iter_sections())
+    secs = ctx.drain(elf.iter_sections())
     names = [s.name for s in secs]
     ctx.outcome('ok')
 
